@@ -11,9 +11,21 @@
    * C16.MatOK — ids reported by a tagging job / a mark definition are existing stream ids;
    * IdsOK     — the id sets an import reports are below the new `next`; the tag an event names in a
                  completion is the one in flight (C09.EvOK);
-   * FactsOK   — the parser facts of a definition are a function of the definition text (the same
-                 text always yields the same referenced tags), and a tagging job publishes the facts
-                 it was started with.
+   * EvFactsOK — the parser facts of a definition are a function of the definition text (the same
+                 text always yields the same referenced tags: against the running job's snapshot and
+                 against the table), a definition classified as an id list references no tags, and
+                 (`NameOK`) `parseTagName` and the `mark/`-prefix test agree on the names involved.
+
+  ADDED (proof phase; every change is marked `-- ADDED` with its reason / counterexample):
+   * `AllLeNext` (`all ≤ next`, with `allLeNext_step`) — extra hypothesis of `uncBounded_step`, new
+     field of `Reach`;
+   * `JobUncBounded` also bounds the during-job masks, the converter queues and the sets of a running
+     converter job (the draft was not inductive);
+   * `FactsOK` extended to "facts are a function of the text" for the whole table, mark tags being
+     reference-free (the draft was not inductive: rename under the name of a stale job);
+     `EvFactsOK` extended accordingly;
+   * `RefsExist` (no dangling references, with `refsExist_step`) — extra hypothesis of `refByWF_step`,
+     new field of `Reach`.
 -/
 import Pk.Model.Manager
 import Pk.Props.C06
@@ -38,38 +50,228 @@ def NextLeAll (s : St) : Prop := s.next ≤ s.all
 
 /-- the snapshot a running tagging job will publish is bounded like the tags in the table -/
 def JobUncBounded (s : St) : Prop :=
-  ∀ n snap held, s.jTag = some (n, snap, held) → ∀ id, id ∈ snap.unc → id < s.all
+  (∀ n snap held, s.jTag = some (n, snap, held) → ∀ id, id ∈ snap.unc → id < s.all) ∧
+  -- ADDED: the during-job masks are bounded: a tagging-job completion runs
+  -- `invalidateTags s s.upd s.rst s.add`, which adds these ids to pending sets.  Counterexample
+  -- without it: all = 0, add = [7], jTag = some (a, T, []), tags = [(a, T)], T = {defn "x", mfeat 0,
+  -- sfeat 0}; `tagDone a []` leaves a.unc = [7] although all = 0.
+  (∀ id, id ∈ s.upd → id < s.all) ∧ (∀ id, id ∈ s.rst → id < s.all) ∧ (∀ id, id ∈ s.add → id < s.all) ∧
+  -- ADDED: the converter queues and the sets of a running converter job are bounded: a converter-job
+  -- completion adds the ids of its sets to pending sets and to `upd`; the sets are taken from the
+  -- queues when the job starts.  Counterexample without it: all = 0, convs = ["c"], convert = true,
+  -- jConv = some ([("c", [9])], []), tags = [(a, {mfeat := 128, …})]; `convertDone` leaves a.unc = [9].
+  (∀ p, p ∈ s.toconv → ∀ id, id ∈ p.2 → id < s.all) ∧
+  (∀ sets held, s.jConv = some (sets, held) → ∀ p, p ∈ sets → ∀ id, id ∈ p.2 → id < s.all)
 
 theorem nextLeAll_step (s : St) (e : Ev) (st : Started) (h : NextLeAll s) (hj : C10.ImportJobInv s) :
     NextLeAll (step s e st).1 := by
-  sorry
+  unfold NextLeAll at *
+  by_cases himp : ∃ p u c a b d, e = .importDone p u c a b d
+  · obtain ⟨p, u, c, a, b, d, rfl⟩ := himp
+    cases hji : s.jImport with
+    | none => rw [Pk.Proofs.MgrReach.step_importDone_none' _ _ _ _ _ _ _ _ hji]; exact h
+    | some q =>
+      obtain ⟨jn, held⟩ := q
+      obtain ⟨e1, e2⟩ := Pk.Proofs.MgrReach.step_importDone_all_next s p u c a b d st jn held hji
+      have := hj jn held hji
+      rw [e1, e2]
+      split <;> omega
+  · obtain ⟨e1, e2⟩ := Pk.Proofs.MgrReach.step_all_next_other s e st
+      (fun p u c a b d h => himp ⟨p, u, c, a, b, d, h⟩)
+    rw [e1, e2]; exact h
+
+-- ADDED: `allStreams` never runs ahead of `nextStreamID` (so `all = next` with `NextLeAll`).  Needed by
+-- `uncBounded_step`: an import completion sets `all := jn + usednew`; if `all` could exceed `next`
+-- (= `jn`), a completion with `usednew = 0` would *shrink* `all` below pending ids (counterexample at
+-- `uncBounded_step`).  It is an invariant because an import that used new ids created a file
+-- (`C10.EvOK`: `usednew ≠ 0 → created ≠ []`), and then `next` is raised together with `all`.
+/-- `all ≤ next`: no stream id is counted in `allStreams` before it has been handed out -/
+def AllLeNext (s : St) : Prop := s.all ≤ s.next
+
+-- ADDED (with `AllLeNext`): it is preserved by every transition
+theorem allLeNext_step (s : St) (e : Ev) (st : Started) (h : AllLeNext s) (hj : C10.ImportJobInv s)
+    (hok : C10.EvOK s e) : AllLeNext (step s e st).1 := by
+  unfold AllLeNext at *
+  by_cases himp : ∃ p u c a b d, e = .importDone p u c a b d
+  · obtain ⟨p, u, c, a, b, d, rfl⟩ := himp
+    cases hji : s.jImport with
+    | none => rw [Pk.Proofs.MgrReach.step_importDone_none' _ _ _ _ _ _ _ _ hji]; exact h
+    | some q =>
+      obtain ⟨jn, held⟩ := q
+      obtain ⟨e1, e2⟩ := Pk.Proofs.MgrReach.step_importDone_all_next s p u c a b d st jn held hji
+      have hjn := hj jn held hji
+      have hu := (hok.2 jn held hji).2.1
+      rw [e1, e2]
+      split
+      · next hc =>
+        have : u = 0 := by
+          rcases Nat.eq_zero_or_pos u with h0 | h0
+          · exact h0
+          · exact absurd hc (hu (by omega))
+        omega
+      · omega
+  · obtain ⟨e1, e2⟩ := Pk.Proofs.MgrReach.step_all_next_other s e st
+      (fun p u c a b d h => himp ⟨p, u, c, a, b, d, h⟩)
+    rw [e1, e2]; exact h
 
 theorem uncBounded_step (s : St) (e : Ev) (st : Started)
     (hw : C06.TagsWF s) (hn : NextLeAll s) (hj : C10.ImportJobInv s)
     (hm : C16.MatInv s) (hok : IdsOK s e) (hmok : C16.MatOK s e)
-    (h : C06.UncBounded s) (hjb : JobUncBounded s) :
+    (h : C06.UncBounded s) (hjb : JobUncBounded s)
+    -- ADDED: without it the statement is false: next = 0, all = 5, tags = [(a, {unc := [3], …})],
+    -- jImport = some (0, []), event `importDone 1 0 [] [] [] []`: the completion sets all := 0 + 0,
+    -- and 3 is no longer below `all`.  (All other hypotheses hold in that state.)
+    (hal : AllLeNext s) :
     C06.UncBounded (step s e st).1 ∧ JobUncBounded (step s e st).1 := by
-  sorry
+  open Pk.Proofs.MgrReach in
+  -- everything the state mentions is below `all`
+  have hpb : PB s.all s := by
+    obtain ⟨j1, j2, j3, j4, j5, j6⟩ := hjb
+    refine ⟨Nat.le_refl _, hn, ?_, ?_, j2, j3, j4, j5, j6⟩
+    · intro nt hnt
+      refine ⟨fun id hid => h nt.1 nt.2 (Pk.Proofs.MgrConv.mem_sget_of_sorted _ hw _ _ hnt) id hid, ?_⟩
+      intro id hid
+      exact Nat.lt_of_lt_of_le (hm.1 nt hnt id hid) hn
+    · intro n snap held hjt
+      exact ⟨j1 n snap held hjt, fun id hid => Nat.lt_of_lt_of_le (hm.2 n snap held hjt id hid) hn⟩
+  -- the bound after the step, and the payload below it
+  have key : s.all ≤ (step s e st).1.all ∧ BOK (step s e st).1.all s e := by
+    cases e with
+    | importDone p u c a b d =>
+      cases hji : s.jImport with
+      | none =>
+        rw [step_importDone_none' _ _ _ _ _ _ _ _ hji]
+        exact ⟨Nat.le_refl _, fun jn held hh => by rw [hji] at hh; cases hh⟩
+      | some q =>
+        obtain ⟨jn, held⟩ := q
+        obtain ⟨e1, _⟩ := step_importDone_all_next s p u c a b d st jn held hji
+        have hjn := hj jn held hji
+        rw [e1]
+        refine ⟨by unfold AllLeNext at hal; omega, ?_⟩
+        intro jn' held' hh
+        rw [hji] at hh; cases hh
+        obtain ⟨b1, b2, b3⟩ := hok jn held hji
+        exact ⟨Nat.le_refl _, b1, b2, b3⟩
+    | tagDone name result =>
+      rw [(step_all_next_other s _ st (by simp)).1]
+      exact ⟨Nat.le_refl _, fun id hid => Nat.lt_of_lt_of_le (hmok id hid) hn⟩
+    | addTag name color defn f =>
+      rw [(step_all_next_other s _ st (by simp)).1]
+      exact ⟨Nat.le_refl _, fun id hid => Nat.lt_of_lt_of_le (hmok id hid) hn⟩
+    | nop => rw [(step_all_next_other s _ st (by simp)).1]; exact ⟨Nat.le_refl _, trivial⟩
+    | importPcaps _ => rw [(step_all_next_other s _ st (by simp)).1]; exact ⟨Nat.le_refl _, trivial⟩
+    | mergeDone _ => rw [(step_all_next_other s _ st (by simp)).1]; exact ⟨Nat.le_refl _, trivial⟩
+    | convertDone => rw [(step_all_next_other s _ st (by simp)).1]; exact ⟨Nat.le_refl _, trivial⟩
+    | updQuery _ _ _ => rw [(step_all_next_other s _ st (by simp)).1]; exact ⟨Nat.le_refl _, trivial⟩
+    | updColor _ _ => rw [(step_all_next_other s _ st (by simp)).1]; exact ⟨Nat.le_refl _, trivial⟩
+    | updName _ _ => rw [(step_all_next_other s _ st (by simp)).1]; exact ⟨Nat.le_refl _, trivial⟩
+    | updConv _ _ => rw [(step_all_next_other s _ st (by simp)).1]; exact ⟨Nat.le_refl _, trivial⟩
+    | markAdd _ _ => rw [(step_all_next_other s _ st (by simp)).1]; exact ⟨Nat.le_refl _, trivial⟩
+    | markDel _ _ => rw [(step_all_next_other s _ st (by simp)).1]; exact ⟨Nat.le_refl _, trivial⟩
+    | delTag _ => rw [(step_all_next_other s _ st (by simp)).1]; exact ⟨Nat.le_refl _, trivial⟩
+    | viewOpen _ => rw [(step_all_next_other s _ st (by simp)).1]; exact ⟨Nat.le_refl _, trivial⟩
+    | viewRelease _ => rw [(step_all_next_other s _ st (by simp)).1]; exact ⟨Nat.le_refl _, trivial⟩
+  have hpb' := pb_step s e st (hpb.mono key.1) key.2
+  refine ⟨?_, ?_, hpb'.upd, hpb'.rst, hpb'.add, hpb'.toconv, hpb'.jconv⟩
+  · intro n t ht id hid
+    exact (hpb'.tags (n, t) (Pk.Proofs.MgrConv.sget_mem _ _ _ ht)).1 id hid
+  · intro n snap held hjt id hid
+    exact (hpb'.job n snap held hjt).1 id hid
+
+-- ADDED: the test `UpdateTag` applies to decide that a mark update / a definition restricted to id
+-- lists is allowed (`strings.HasPrefix(name, "mark/") || …`)
+/-- the name is that of a mark tag -/
+def isMarkName (n : String) : Bool := n.startsWith "mark/" || n.startsWith "generated/"
 
 /-- the facts the parser reports for a definition determine its references: two tags (or a tag and
     the snapshot of a running job) with the same definition text have the same references -/
 def FactsOK (s : St) : Prop :=
   (∀ n snap held ot, s.jTag = some (n, snap, held) → sget s.tags n = some ot → ot.defn = snap.defn →
-     ot.mainT = snap.mainT ∧ ot.subT = snap.subT)
+     ot.mainT = snap.mainT ∧ ot.subT = snap.subT) ∧
+  -- ADDED: the first conjunct alone is not inductive.  Counterexample (`factsOK_step` with the draft
+  -- definitions): tags = [(tag/x, {defn "D", mainT [tag/q]})], jTag = some (tag/y, {defn "D", mainT []}, _)
+  -- (a job whose tag was deleted meanwhile); the event `updName tag/x tag/y` moves a tag with the
+  -- job's text but other facts under the job's name.  What is inductive is "the facts are a function
+  -- of the text" for the whole table; a mark update rewrites the text of a mark tag without
+  -- consulting the parser, which is sound because mark tags are id lists and reference nothing:
+  -- (a) mark tags reference no tags
+  (∀ n t, sget s.tags n = some t → isMarkName n = true → t.mainT = [] ∧ t.subT = []) ∧
+  -- (b) two other tags with the same text have the same facts
+  (∀ n1 t1 n2 t2, sget s.tags n1 = some t1 → sget s.tags n2 = some t2 → isMarkName n1 = false →
+     isMarkName n2 = false → t1.defn = t2.defn → t1.mainT = t2.mainT ∧ t1.subT = t2.subT) ∧
+  -- (c) the same for the snapshot of the running job against the table
+  (∀ n snap held, s.jTag = some (n, snap, held) → isMarkName n = true → snap.mainT = [] ∧ snap.subT = []) ∧
+  (∀ n snap held, s.jTag = some (n, snap, held) → isMarkName n = false →
+     ∀ m ot, sget s.tags m = some ot → isMarkName m = false → ot.defn = snap.defn →
+       ot.mainT = snap.mainT ∧ ot.subT = snap.subT)
+
+-- ADDED: `parseTagName` (used by `AddTag` to decide that the definition must be an id list, and by
+-- the rename to compare tag types) and the prefix test `isMarkName` (used by `UpdateTag`) agree on
+-- what a mark tag is.  This is a fact about the two string functions that holds for every string
+-- (evaluated on samples in the proof phase); it is stated as a side condition on the names an event
+-- carries because relating `String.splitOn` and `String.startsWith` needs lemmas core does not have.
+/-- both notions of "mark tag" agree on this name -/
+def NameOK (n : String) : Prop :=
+  isMarkName n = true ↔ ((parseTagName n).1 = "mark" ∨ (parseTagName n).1 = "generated")
 
 /-- an event's facts agree with the facts already stored for the same definition text -/
 def EvFactsOK (s : St) : Ev → Prop
-  | .addTag _ _ d f => ∀ n snap held, s.jTag = some (n, snap, held) → snap.defn = d → snap.mainT = f.main ∧ snap.subT = f.sub
-  | .updQuery _ d f => ∀ n snap held, s.jTag = some (n, snap, held) → snap.defn = d → snap.mainT = f.main ∧ snap.subT = f.sub
+  | .addTag name _ d f =>
+      (∀ n snap held, s.jTag = some (n, snap, held) → snap.defn = d → snap.mainT = f.main ∧ snap.subT = f.sub) ∧
+      -- ADDED: the parser is a function of the text, also against the tags in the table
+      (∀ m t, sget s.tags m = some t → t.defn = d → t.mainT = f.main ∧ t.subT = f.sub) ∧
+      -- ADDED: a definition the parser classifies as an id list references no tags
+      (f.idsok = true → f.main = [] ∧ f.sub = []) ∧
+      NameOK name  -- ADDED: see `NameOK`
+  | .updQuery _ d f =>
+      (∀ n snap held, s.jTag = some (n, snap, held) → snap.defn = d → snap.mainT = f.main ∧ snap.subT = f.sub) ∧
+      (∀ m t, sget s.tags m = some t → t.defn = d → t.mainT = f.main ∧ t.subT = f.sub) ∧  -- ADDED: as above
+      (f.idsok = true → f.main = [] ∧ f.sub = [])  -- ADDED: as above
+  | .updName name new => NameOK name ∧ NameOK new  -- ADDED: see `NameOK` (a rename keeps the tag type)
   | _ => True
+
+private theorem fj_of (s : St) (hw : C06.TagsWF s) (h : FactsOK s) : Pk.Proofs.MgrReach.FJ s :=
+  ⟨hw, ⟨h.2.1, h.2.2.1, h.2.2.2.1, h.2.2.2.2⟩⟩
 
 theorem factsOK_step (s : St) (e : Ev) (st : Started) (hw : C06.TagsWF s) (h : FactsOK s) (he : EvFactsOK s e) :
     FactsOK (step s e st).1 := by
-  sorry
+  have hp : Pk.Proofs.MgrReach.FPay s e := by
+    cases e with
+    | addTag name color d f => exact ⟨⟨he.1, he.2.1, he.2.2.1⟩, he.2.2.2⟩
+    | updQuery name d f => exact ⟨he.1, he.2.1, he.2.2⟩
+    | updName name new => exact he
+    | _ => trivial
+  have fj' := Pk.Proofs.MgrReach.fj_step s e st (fj_of s hw h) hp
+  refine ⟨?_, fj'.fi.plain, fj'.fi.tc, fj'.fi.jplain, fj'.fi.jtc⟩
+  intro n snap held ot hj hot hd
+  have hfi := fj'.fi
+  rw [hj] at hfi
+  exact hfi.facts hot hd
+
+-- ADDED: every reference of every tag exists.  `refByWF_step` is false without it: `RefByWF` says
+-- nothing about a reference to a name that is not in the table, and a tag created under that name
+-- starts with an empty `refBy`.
+/-- no tag references a name that is not in the table -/
+def RefsExist (s : St) : Prop := ∀ nt ∈ s.tags, ∀ r ∈ nt.2.refs, (sget s.tags r).isSome = true
+
+private theorem refGraph_step (s : St) (e : Ev) (st : Started) (hw : C06.TagsWF s) (hf : FactsOK s)
+    (h : C09.RefByWF s) (hre : RefsExist s) :
+    C09.RefByWF (step s e st).1 ∧ RefsExist (step s e st).1 :=
+  Pk.Proofs.MgrReach.props_of_G (C06.tagsWF_step s e st hw)
+    (Pk.Proofs.MgrReach.g_step s e st (fj_of s hw hf) (Pk.Proofs.MgrReach.G_of_props h hre))
 
 theorem refByWF_step (s : St) (e : Ev) (st : Started) (hw : C06.TagsWF s) (hf : FactsOK s)
-    (h : C09.RefByWF s) : C09.RefByWF (step s e st).1 := by
-  sorry
+    (h : C09.RefByWF s)
+    -- ADDED: without it the statement is false: tags = [(tag/b, {mainT := [tag/a], …})] (tag/a does
+    -- not exist, so `RefByWF` holds vacuously); the event `addTag tag/a …` creates tag/a with
+    -- refBy = [] although tag/b references it.
+    (hre : RefsExist s) : C09.RefByWF (step s e st).1 :=
+  (refGraph_step s e st hw hf h hre).1
+
+-- ADDED (with `RefsExist`): it is preserved by every transition
+theorem refsExist_step (s : St) (e : Ev) (st : Started) (hw : C06.TagsWF s) (hf : FactsOK s)
+    (h : C09.RefByWF s) (hre : RefsExist s) : RefsExist (step s e st).1 :=
+  (refGraph_step s e st hw hf h hre).2
 
 /-- all invariants of the service-loop model -/
 structure Reach (s : St) : Prop where
@@ -79,6 +281,7 @@ structure Reach (s : St) : Prop where
   importJob : C10.ImportJobInv s
   covered : C10.Covered s
   nextLeAll : NextLeAll s
+  allLeNext : AllLeNext s  -- ADDED: needed by `uncBounded_step` (see `AllLeNext`)
   uncBounded : C06.UncBounded s
   jobUnc : JobUncBounded s
   matInv : C16.MatInv s
@@ -86,6 +289,7 @@ structure Reach (s : St) : Prop where
   accounted : C16.Accounted s
   factsOK : FactsOK s
   refByWF : C09.RefByWF s
+  refsExist : RefsExist s  -- ADDED: needed by `refByWF_step` (see `RefsExist`)
   noStuck : C09.NoStuck s
 
 /-- the contract on what an event takes from the real system -/
@@ -94,11 +298,54 @@ def PayloadOK (s : St) (e : Ev) : Prop :=
 
 theorem reach_init (convs : List String) :
     Reach { convs := convs, toconv := convs.map (fun c => (c, [])), cached := convs.map (fun c => (c, [])) } := by
-  sorry
+  refine ⟨?_, C09.jobsWF_init convs, C13.count_init convs, ?_, ?_, ?_, ?_, ?_, ?_, ?_, ?_, ?_, ?_,
+    C09.refByWF_init convs, ?_, C09.nostuck_init convs⟩
+  · exact List.Pairwise.nil
+  · intro jn held h; cases h
+  · intro id h; exact absurd h (Nat.not_lt_zero _)
+  · exact Nat.le_refl _
+  · exact Nat.le_refl _
+  · intro n t h; cases h
+  · refine ⟨fun _ _ _ h => (by cases h), fun _ h => (by cases h), fun _ h => (by cases h), fun _ h => (by cases h), ?_,
+      fun _ _ h => (by cases h)⟩
+    intro p hp id hid
+    obtain ⟨c, _, rfl⟩ := List.mem_map.1 hp
+    cases hid
+  · exact ⟨fun _ h => (by cases h), fun _ _ _ h => (by cases h)⟩
+  · intro n t h; cases h
+  · intro n t h; cases h
+  · exact ⟨fun _ _ _ _ h => (by cases h), fun _ _ h => (by cases h), fun _ _ _ _ h => (by cases h),
+      fun _ _ _ h => (by cases h), fun _ _ _ h => (by cases h)⟩
+  · intro nt h; cases h
 
 theorem reach_step (s : St) (e : Ev) (st : Started) (h : Reach s) (hok : PayloadOK s e) :
     Reach (step s e st).1 := by
-  sorry
+  obtain ⟨h10, h09, h16, hids, hfacts⟩ := hok
+  have h13 : C13.EvOK s e := by
+    cases e with
+    | importDone _ _ _ _ _ _ => exact h10.1
+    | mergeDone _ => exact h10.1
+    | _ => trivial
+  have hunc := uncBounded_step s e st h.tagsWF h.nextLeAll h.importJob h.matInv hids h16 h.uncBounded h.jobUnc
+    h.allLeNext
+  exact {
+    tagsWF := C06.tagsWF_step s e st h.tagsWF
+    jobsWF := C09.jobsWF_step s e st h.jobsWF h09
+    count := C13.count_step s e st h.count h13
+    importJob := C10.importJobInv_step s e st h.importJob
+    covered := C10.cover_step s e st h.covered h.count h10
+    nextLeAll := nextLeAll_step s e st h.nextLeAll h.importJob
+    allLeNext := allLeNext_step s e st h.allLeNext h.importJob h10
+    uncBounded := hunc.1
+    jobUnc := hunc.2
+    matInv := C16.matInv_step s e st h.matInv h10 h16
+    convsWF := C16.convsWF_step s e st h.tagsWF h.convsWF
+    accounted := C16.accounted_step s e st h.tagsWF h.convsWF h.covered h.count h10 h.accounted
+      (C16.matInv_bounded s h.matInv)
+    factsOK := factsOK_step s e st h.tagsWF h.factsOK hfacts
+    refByWF := refByWF_step s e st h.tagsWF h.factsOK h.refByWF h.refsExist
+    refsExist := refsExist_step s e st h.tagsWF h.factsOK h.refByWF h.refsExist
+    noStuck := C09.nostuck_step s e st h.jobsWF h.noStuck h09 h.refByWF }
 
 def HistOK (s : St) : List (Ev × Started) → Prop
   | [] => True
@@ -109,6 +356,10 @@ def HistOK (s : St) : List (Ev × Started) → Prop
     are accounted for by the converters, … for every order of job completions -/
 theorem reach_run (s : St) (h : List (Ev × Started)) (hs : Reach s) (hh : HistOK s h) :
     Reach (C13.run s h) := by
-  sorry
+  induction h generalizing s with
+  | nil => exact hs
+  | cons a rest ih =>
+    obtain ⟨e, st⟩ := a
+    exact ih _ (reach_step s e st hs hh.1) hh.2
 
 end Pk.Props.MgrReach
